@@ -1104,6 +1104,7 @@ class Frame(registering.StoriedRegistrar):
         """
         over = self.over
         under = self
+        climbed = [self]  # frames already passed on this climb, to detect any loop
 
         while over: #not beyond top
             if not isinstance(over, Frame): #over is name of frame not ref so resolve
@@ -1113,7 +1114,7 @@ class Frame(registering.StoriedRegistrar):
                 except KeyError:
                     raise excepting.ResolveError("Bad over link in outline", self.name, name)
 
-                if over == self: #check for loop
+                if over in climbed: #check for loop
                     raise excepting.ResolveError("Outline overs create loop", self.name, under.name)
 
                 #attach under to over
@@ -1128,9 +1129,10 @@ class Frame(registering.StoriedRegistrar):
                 under.over = over #assign valid over ref
 
             else: #over is valid frame reference so don't need to resolve
-                if over == self: #check for loop
+                if over in climbed: #check for loop
                     raise excepting.ResolveError("Outline overs create loop", self.name, under.name)
 
+            climbed.append(over)
             under = over
             over = over.over #rise one level
 
